@@ -86,7 +86,9 @@ def _collapse_preconditions(
             ).format(func.__qualname__)
         )
 
-    return base_preconditions + preconditions
+    # The groups inherited from the bases are copied: a precondition added later to this function
+    # (it is appended to a group) must not reach the functions of the base classes.
+    return [list(group) for group in base_preconditions] + preconditions
 
 
 def _collapse_snapshots(
